@@ -1,0 +1,40 @@
+//go:build verif
+
+package dhcpv6
+
+import "time"
+
+// Verification seams for property C09 (exhausted-state hammer in /verif): read-only
+// views of unexported state, no behaviour of their own.
+
+// VerifC09PoolFree returns the number of free entries of the legacy address and
+// prefix pools (-1 for a pool that is not configured).
+func (s *Server) VerifC09PoolFree() (addrFree, prefixFree int) {
+	addrFree, prefixFree = -1, -1
+	if p := s.addressPool; p != nil {
+		p.mu.Lock()
+		addrFree = len(p.available)
+		p.mu.Unlock()
+	}
+	if p := s.prefixPool; p != nil {
+		p.mu.Lock()
+		prefixFree = len(p.available)
+		p.mu.Unlock()
+	}
+	return addrFree, prefixFree
+}
+
+// VerifC09LeaseAges returns how many leases the table holds and how many of them
+// have a valid lifetime that has run out (they are still in the table: not swept).
+func (s *Server) VerifC09LeaseAges() (total, lapsed int) {
+	now := time.Now()
+	s.leasesMu.RLock()
+	defer s.leasesMu.RUnlock()
+	for _, l := range s.leases {
+		total++
+		if !l.ValidEnd.IsZero() && !now.Before(l.ValidEnd) {
+			lapsed++
+		}
+	}
+	return total, lapsed
+}
